@@ -334,8 +334,8 @@ def innerLoop : Nat → Nat → Sweep α → Sweep α
   | 0, _, w => w
   | n + 1, top, w => innerLoop n (top - 1) (innerStep (top - 1) w)
 
-/-- one pass through the body of the `do { } while (REF_TRUE)` loop (shift + QL sweep), l < mm ≤ 2 -/
-def sweep (l mm : Nat) (st : QL α) : QL α :=
+/-- the `form shift` part of the loop body: new `d[l]`, `d[l+1]`, `d[i] -= h` for i ≥ l+2, `f += h` -/
+def shift (l : Nat) (st : QL α) : QL α :=
   let l1 := l + 1
   let g := st.getD l
   let el := st.getE l
@@ -343,14 +343,17 @@ def sweep (l mm : Nat) (st : QL α) : QL α :=
   let r := Scalar.sqrt (p *. p +. one)
   let st := st.setD l (el /. (p +. gridSign r p))
   let st := st.setD l1 (el *. (p +. gridSign r p))
-  let dl1 := st.getD l1
   let h := g -. st.getD l
   let st := if l1 + 1 ≤ 2 then st.setD 2 (st.getD 2 -. h) else st
-  let st := { st with f := st.f +. h }
-  let p := st.getD mm
-  let el1 := st.getE l1
+  { st with f := st.f +. h }
+
+/-- one pass through the body of the `do { } while (REF_TRUE)` loop (shift + QL sweep), l < mm ≤ 2 -/
+def sweep (l mm : Nat) (st : QL α) : QL α :=
+  let st1 := shift l st
+  let dl1 := st1.getD (l + 1)
+  let el1 := st.getE (l + 1)
   let w := innerLoop (mm - l) mm
-    { st := st, p := p, c := one, c2 := one, c3 := zero, s := zero, s2 := zero }
+    { st := st1, p := st1.getD mm, c := one, c2 := one, c3 := zero, s := zero, s2 := zero }
   let p := (-. w.s) *. w.s2 *. w.c3 *. el1 *. w.st.getE l /. dl1
   let st := w.st.setE l (w.s *. p)
   st.setD l (w.c *. p)
